@@ -3452,7 +3452,16 @@ class Session(_SessionClassMethods, EventTarget):
         cascaded = list(
             state.manager.mapper.cascade_iterator("expunge", state)
         )
-        self._expunge_states([state] + [st_ for o, m, st_, dct_ in cascaded])
+        self._expunge_states(
+            [state]
+            + [
+                st_
+                for o, m, st_, dct_ in cascaded
+                # the cascade follows object references; only objects that
+                # belong to this Session can be expunged from it
+                if st_.session_id == self.hash_key
+            ]
+        )
 
     def _expunge_states(
         self, states: Iterable[InstanceState[Any]], to_transient: bool = False
